@@ -150,4 +150,4 @@ Fixpoint valid_tree (fuel : nat) (c : cmd) : bool :=      (* [c] is built *)
                                 | Some sc => valid_tree f sc
                                 | None => false end) (c_subs c)
   end.
-Definition valid (c : cmd) : bool := valid_tree (S (S (depth c))) (build_self c).
+Definition valid (c : cmd) : bool := let b := build_self c in valid_tree (S (S (depth b))) b.
